@@ -213,7 +213,7 @@ func (s *Sim) nowNs() int64 { return int64(time.Since(s.start)) }
 // scheduler goroutine), so that the simulator's own lock adds no
 // happens-before edge between goroutines the library leaves unordered.
 var raceKinds = map[string]bool{"tx": true, "txbad": true, "rx": true, "judge": true, "connstat": true, "teardown": true,
-	"skipped": true, "cut": true, "horizon": true, "subtable": true, "stats": true, "pending": true}
+	"skipped": true, "cut": true, "rxlost": true, "lostb2c": true, "horizon": true, "subtable": true, "stats": true, "pending": true}
 
 func (s *Sim) log(r Rec) {
 	if s.race && !raceKinds[r.Kind] {
